@@ -8,6 +8,8 @@
 -/
 import PyModeS.Model.CPR
 import PyModeS.Proofs.CPR.NL
+import PyModeS.Proofs.NL.Grid
+import PyModeS.Proofs.NL.Bridge
 namespace PyModeS.C06
 
 /-- the committed table of transition latitudes is strictly increasing from θ_59 to θ_2 = 87°,
@@ -88,5 +90,268 @@ example : cprNL 87 = 2 ∧ cprNL (870000001 / 10000000) = 1 ∧ cprNL (-90) = 1 
 example : nlStair (522572 / 10000) = 36 :=
   nlStair_row _ 22 (37, 51893424691687, 51893424691688) (36, 53095161527960, 53095161527961)
     (by decide +kernel) (by decide +kernel) (by norm_num) (by norm_num)
+
+/-! ### the CPR latitude grids never come close to a transition latitude
+
+  `NL.gridLat g m = Dlat(g) · m / 2¹⁷` (`m : ℤ`) enumerates the latitudes of the four CPR grids
+  (`NL.gridLat_zone`: `Dlat · (k + y/2¹⁷) = gridLat g (k·2¹⁷ + y)`): airborne even `Dlat = 6`,
+  airborne odd `360/59`, surface even `3/2`, surface odd `90/59`.  These are the latitudes an
+  encoder can carry (`cprEncode_rlat_on_grid`) and the only latitudes at which a decoder ever
+  evaluates `cprNL`.  Proofs: `PyModeS/Proofs/NL/Grid.lean` (integer certificate, 57 rows × 4 grids,
+  checked by the kernel). -/
+
+open NL in
+/-- sharp form: every grid latitude (both signs) is more than 8069·10⁻¹²° away from the
+    enclosure of every θ₃ … θ₅₉; 8070 fails (`grid_margin_sharp`) -/
+theorem grid_avoids_transitions_sharp (g : LatGrid) (m : ℤ) (r : ℕ × ℕ × ℕ)
+    (hr : r ∈ Spec.nlTable) (h3 : 3 ≤ r.1) :
+    |gridLat g m| * 10 ^ 12 < (r.2.1 : ℚ) - 8069 ∨ |gridLat g m| * 10 ^ 12 > (r.2.2 : ℚ) + 8069 :=
+  NL.grid_avoids_transitions_8069 g m r hr h3
+
+open NL in
+/-- **grid_avoids_transitions**: for each of the four latitude grids, every grid latitude `x`
+    (any integer multiple of `Dlat/2¹⁷`, either sign) and every row `(n, lo, hi)`, `n ≥ 3`, of
+    `Spec.nlTable`: `|x|·10¹² < lo − 1000 ∨ |x|·10¹² > hi + 1000` (more than 10⁻⁹° away) -/
+theorem grid_avoids_transitions (g : LatGrid) (m : ℤ) (r : ℕ × ℕ × ℕ)
+    (hr : r ∈ Spec.nlTable) (h3 : 3 ≤ r.1) :
+    |gridLat g m| * 10 ^ 12 < (r.2.1 : ℚ) - 1000 ∨ |gridLat g m| * 10 ^ 12 > (r.2.2 : ℚ) + 1000 := by
+  rcases grid_avoids_transitions_sharp g m r hr h3 with h | h
+  · left; linarith
+  · right; linarith
+
+open NL in
+/-- the same in zone-index / 17-bit-field form: `x = Dlat · (k + y/2¹⁷)` -/
+theorem grid_avoids_transitions_zone (g : LatGrid) (k y : ℤ) (r : ℕ × ℕ × ℕ)
+    (hr : r ∈ Spec.nlTable) (h3 : 3 ≤ r.1) :
+    |g.dLat * ((k : ℚ) + (y : ℚ) / 2 ^ 17)| * 10 ^ 12 < (r.2.1 : ℚ) - 1000 ∨
+      |g.dLat * ((k : ℚ) + (y : ℚ) / 2 ^ 17)| * 10 ^ 12 > (r.2.2 : ℚ) + 1000 := by
+  have h : (2 : ℚ) ^ 17 = 131072 := by norm_num
+  rw [h, gridLat_zone]
+  exact grid_avoids_transitions g _ r hr h3
+
+/-- the margin 8069 is the largest integer one: the surface-odd grid latitude number 3913562
+    (45.546267234672…°) is less than 8070·10⁻¹²° above the upper end of θ₄₂ -/
+theorem grid_margin_sharp :
+    (42, 45546267226602, 45546267226603) ∈ Spec.nlTable ∧
+    ¬ (|NL.gridLat .surfOdd 3913562| * 10 ^ 12 < (45546267226602 : ℚ) - 8070) ∧
+    ¬ (|NL.gridLat .surfOdd 3913562| * 10 ^ 12 > (45546267226603 : ℚ) + 8070) := by
+  refine ⟨by decide +kernel, ?_, ?_⟩ <;> norm_num [NL.gridLat, NL.LatGrid.dLat, abs_of_pos]
+
+open NL in
+/-- 87° = θ₂: a grid latitude is either exactly 87° or more than 8069·10⁻¹²° away from it -/
+theorem grid_avoids_87 (g : LatGrid) (m : ℤ) :
+    |gridLat g m| = 87 ∨ |gridLat g m| * 10 ^ 12 < 87000000000000 - 8069 ∨
+      |gridLat g m| * 10 ^ 12 > 87000000000000 + 8069 := NL.grid_avoids_87 g m
+
+open NL in
+/-- both even grids contain 87° itself (`6·(14 + 65536/2¹⁷)`, `(3/2)·58`); there the staircase
+    is 2 (the closed end of the last step), and the odd grids never hit 87° -/
+theorem grid_hits_87 :
+    gridLat .airEven 1900544 = 87 ∧ (6 : ℚ) * (14 + 65536 / 2 ^ 17) = 87 ∧
+    gridLat .surfEven 7602176 = 87 ∧ nlStair 87 = 2 ∧ cprNL 87 = 2 ∧
+    (∀ m : ℤ, |gridLat .airOdd m| ≠ 87) ∧ (∀ m : ℤ, |gridLat .surfOdd m| ≠ 87) := by
+  refine ⟨by norm_num [gridLat, LatGrid.dLat], by norm_num, by norm_num [gridLat, LatGrid.dLat],
+    by decide +kernel, by decide +kernel, ?_, ?_⟩
+  · intro m h
+    have h1 := abs_gridLat_scaled .airOdd m
+    rw [h] at h1
+    have hK : ((KK : ℕ) : ℚ) ≠ 0 := by unfold KK; norm_num
+    rw [eq_div_iff hK] at h1
+    have h2 : (87 * 1000000000000 * KK : ℕ) = m.natAbs * LatGrid.C .airOdd := by exact_mod_cast h1
+    have h3 : (87 * 1000000000000 * KK) % LatGrid.C .airOdd = 0 := by
+      rw [h2]; exact Nat.mul_mod_left _ _
+    revert h3; decide +kernel
+  · intro m h
+    have h1 := abs_gridLat_scaled .surfOdd m
+    rw [h] at h1
+    have hK : ((KK : ℕ) : ℚ) ≠ 0 := by unfold KK; norm_num
+    rw [eq_div_iff hK] at h1
+    have h2 : (87 * 1000000000000 * KK : ℕ) = m.natAbs * LatGrid.C .surfOdd := by exact_mod_cast h1
+    have h3 : (87 * 1000000000000 * KK) % LatGrid.C .surfOdd = 0 := by
+      rw [h2]; exact Nat.mul_mod_left _ _
+    revert h3; decide +kernel
+
+open NL in
+/-- stability radius `ε ≤ 8069·10⁻¹²°`: the staircase is constant on the closed
+    `ε`-neighbourhood of every grid latitude other than ±87° -/
+theorem nlStair_on_grid_robust_eps (g : LatGrid) (m : ℤ) (y ε : ℚ)
+    (hε : ε ≤ 8069 / 10 ^ 12) (h87 : |gridLat g m| ≠ 87) (hy : |(|gridLat g m| - y)| ≤ ε) :
+    nlStair |gridLat g m| = nlStair y := by
+  have hε' : ε * 1000000000000 ≤ 8069 := by
+    rw [le_div_iff₀ (by norm_num)] at hε; norm_num at hε; exact hε
+  have h10 : (10 : ℚ) ^ 12 = 1000000000000 := by norm_num
+  apply nlStair_stable _ _ ε hy
+  · rcases NL.grid_avoids_87 g m with h | h | h
+    · exact absurd h h87
+    · left; rw [h10] at h; linarith
+    · right; rw [h10] at h; linarith
+  · intro r hr h3
+    rcases NL.grid_avoids_transitions_8069 g m r hr h3 with h | h
+    · left; rw [h10] at h; linarith
+    · right; rw [h10] at h; linarith
+
+open NL in
+/-- **nlStair_on_grid_robust**: for a latitude `x` of any of the four grids, other than ±87°,
+    `nlStair |x| = nlStair y` for every rational `y` with `||x| − y| ≤ 10⁻⁹` -/
+theorem nlStair_on_grid_robust (g : LatGrid) (m : ℤ) (y : ℚ)
+    (h87 : |gridLat g m| ≠ 87) (hy : |(|gridLat g m| - y)| ≤ 1 / 10 ^ 9) :
+    nlStair |gridLat g m| = nlStair y :=
+  nlStair_on_grid_robust_eps g m y (1 / 10 ^ 9) (by norm_num) h87 hy
+
+open NL in
+/-- the same for the code's `cprNL` on signed latitudes: `|x − y| ≤ 10⁻⁹` -/
+theorem cprNL_on_grid_robust (g : LatGrid) (m : ℤ) (y : ℚ)
+    (h87 : |gridLat g m| ≠ 87) (hy : |gridLat g m - y| ≤ 1 / 10 ^ 9) :
+    cprNL (gridLat g m) = cprNL y := by
+  rw [cprNL_eq_stair_abs, cprNL_eq_stair_abs]
+  apply nlStair_on_grid_robust_eps g m |y| (1 / 10 ^ 9) (by norm_num) h87
+  exact le_trans (abs_abs_sub_abs_le_abs_sub _ _) hy
+
+/-- what holds at the grid latitude 87° (and anywhere from θ₃ on): the staircase is 2 up to and
+    including 87° and 1 beyond, so a perturbation of 87° upwards, however small, changes it -/
+theorem nlStair_near_87 (y : ℚ) (hy : |87 - y| ≤ 1 / 10 ^ 9) :
+    nlStair y = if y ≤ 87 then 2 else 1 := by
+  rw [abs_le] at hy
+  split_ifs with h
+  · exact nlStair_87' y (by norm_num at hy ⊢; linarith [hy.2]) h
+  · exact nlStair_gt_87 y (not_le.mp h)
+
+open NL in
+/-- the latitude carried by a DO-260B CPR encoding (`Spec.cprEncode`, airborne `base = 360` or
+    surface `base = 90`, even `i = 0` or odd `i = 1`) lies on the corresponding grid -/
+theorem cprEncode_rlat_on_grid (nl : ℚ → ℕ) (lat lon : ℚ) :
+    (∃ m, (Spec.cprEncode nl 360 0 lat lon).rlat = gridLat .airEven m) ∧
+    (∃ m, (Spec.cprEncode nl 360 1 lat lon).rlat = gridLat .airOdd m) ∧
+    (∃ m, (Spec.cprEncode nl 90 0 lat lon).rlat = gridLat .surfEven m) ∧
+    (∃ m, (Spec.cprEncode nl 90 1 lat lon).rlat = gridLat .surfOdd m) := by
+  have key : ∀ (base : ℚ) (i : ℕ), ∃ k y : ℤ, (Spec.cprEncode nl base i lat lon).rlat =
+      base / (60 - (i : ℚ)) * ((k : ℚ) + (y : ℚ) / 131072) := fun _ _ => ⟨_, _, rfl⟩
+  refine ⟨?_, ?_, ?_, ?_⟩
+  · obtain ⟨k, y, h⟩ := key 360 0
+    exact ⟨k * 131072 + y, by rw [h, ← gridLat_zone]; norm_num [LatGrid.dLat]⟩
+  · obtain ⟨k, y, h⟩ := key 360 1
+    exact ⟨k * 131072 + y, by rw [h, ← gridLat_zone]; norm_num [LatGrid.dLat]⟩
+  · obtain ⟨k, y, h⟩ := key 90 0
+    exact ⟨k * 131072 + y, by rw [h, ← gridLat_zone]; norm_num [LatGrid.dLat]⟩
+  · obtain ⟨k, y, h⟩ := key 90 1
+    exact ⟨k * 131072 + y, by rw [h, ← gridLat_zone]; norm_num [LatGrid.dLat]⟩
+
+/-- non-vacuity: the surface-odd grid latitude next to θ₄₂ (closest approach of all) and a
+    perturbation by 10⁻⁹° -/
+example : nlStair |NL.gridLat .surfOdd 3913562| = nlStair (|NL.gridLat .surfOdd 3913562| - 1 / 10 ^ 9) :=
+  nlStair_on_grid_robust .surfOdd 3913562 _
+    (by norm_num [NL.gridLat, NL.LatGrid.dLat, abs_of_pos])
+    (by norm_num [NL.gridLat, NL.LatGrid.dLat, abs_of_pos])
+example : (3, 86535369975121, 86535369975122) ∈ Spec.nlTable ∧ (3 : ℕ) ≤ 3 := by decide +kernel
+
+/-! ### the committed table encloses the DO-260B transition latitudes (real analysis)
+
+  `θ n` is the transition latitude of DO-260B (NZ = 15) in degrees.  The table rows are no longer
+  trusted data: every row `(n, lo, hi)` satisfies `lo ≤ θ n · 10¹² ≤ hi`.  Proofs:
+  `PyModeS/Proofs/NL/CosTaylor.lean` (alternating Taylor bounds of cos/sin, any order, `x ≥ 0`),
+  `CosQ.lean` (rational `cosLower`/`cosUpper`, π enclosed by Mathlib's 20-digit bounds),
+  `Theta.lean` (reduction to a rational certificate), `Enclose.lean` (the certificate on all 57
+  rows `n = 59 … 3`, kernel-checked), `ThetaMono.lean` (`θ 2 = 87`, monotonicity). -/
+
+/-- DO-260B: `θ_n = (180/π) · arccos √((1 − cos(π/30)) / (1 − cos(2π/n)))` -/
+noncomputable def θ (n : ℕ) : ℝ :=
+  180 / Real.pi * Real.arccos (Real.sqrt ((1 - Real.cos (Real.pi / 30)) /
+    (1 - Real.cos (2 * Real.pi / n))))
+
+theorem θ_eq_theta : θ = NL.theta := rfl
+
+/-- **nlTable_encloses**: all 57 rows `n = 59 … 3` -/
+theorem nlTable_encloses : ∀ row ∈ Spec.nlTable, row.1 ≥ 3 →
+    (row.2.1 : ℝ) ≤ θ row.1 * 10 ^ 12 ∧ θ row.1 * 10 ^ 12 ≤ row.2.2 :=
+  NL.nlTable_encloses_ge3
+
+/-- the row `n = 2` as well: `θ 2 = 87` exactly -/
+theorem θ_two : θ 2 = 87 := NL.theta_two
+
+theorem nlTable_encloses_all : ∀ row ∈ Spec.nlTable,
+    (row.2.1 : ℝ) ≤ θ row.1 * 10 ^ 12 ∧ θ row.1 * 10 ^ 12 ≤ row.2.2 :=
+  NL.nlTable_encloses_all
+
+/-- `θ 60 = 0`: the formula degenerates at the equator -/
+theorem θ_sixty : θ 60 = 0 := NL.theta_sixty
+
+/-- **θ_strictAnti**: `θ` is strictly decreasing on `2 ≤ m < n ≤ 60` -/
+theorem θ_strictAnti (m n : ℕ) (hm : 2 ≤ m) (hmn : m < n) (hn : n ≤ 60) : θ n < θ m :=
+  NL.theta_strictAnti m n hm hmn hn
+
+/-- the verified rational cosine bounds used by the certificate (16 / 17 Taylor terms), valid for
+    every rational `q ≥ 0` (no upper limit on `q`) -/
+theorem cosLower_le (q : ℚ) (hq : 0 ≤ q) : ((NL.cosLower q : ℚ) : ℝ) ≤ Real.cos q :=
+  NL.cosLower_le q hq
+
+theorem le_cosUpper (q : ℚ) (hq : 0 ≤ q) : Real.cos q ≤ ((NL.cosUpper q : ℚ) : ℝ) :=
+  NL.le_cosUpper q hq
+
+/-- interval versions at rational multiples of π (`piLo < π < piHi`, 20 digits) -/
+theorem cos_mul_pi_bounds (q : ℚ) (hq : 0 ≤ q) (h3 : q * NL.piHi ≤ 3) :
+    ((NL.cosLower (q * NL.piHi) : ℚ) : ℝ) ≤ Real.cos (q * Real.pi) ∧
+      Real.cos (q * Real.pi) ≤ ((NL.cosUpper (q * NL.piLo) : ℚ) : ℝ) :=
+  ⟨NL.cosLower_pi_le q hq h3, NL.le_cosUpper_pi q hq h3⟩
+
+/-- alternating Taylor bounds of any order on `x ≥ 0` (`cosT K` = first `K` terms of the series) -/
+theorem cos_taylor_alternating (j : ℕ) (x : ℝ) (hx : 0 ≤ x) :
+    NL.cosT (2 * j + 2) x ≤ Real.cos x ∧ Real.cos x ≤ NL.cosT (2 * j + 1) x :=
+  ⟨NL.cosT_even_le j x hx, NL.le_cosT_odd j x hx⟩
+
+example : (42, 45546267226602, 45546267226603) ∈ Spec.nlTable := by decide +kernel
+/-- θ₄₂ to 1e-12°, from the table row -/
+example : (45546267226602 : ℝ) ≤ θ 42 * 10 ^ 12 ∧ θ 42 * 10 ^ 12 ≤ 45546267226603 := by
+  have := nlTable_encloses (42, 45546267226602, 45546267226603) (by decide +kernel) (by norm_num)
+  simpa using this
+
+/-! ### the coded closed form over ℝ versus the transition latitudes
+
+  `NL.nlClosed lat = ⌊2π / arccos(1 − (1 − cos(π/(2·15))) / cos²(π/180·|lat|))⌋` is the expression
+  `py_common.cprNL` evaluates (in floating point) after its three short-cuts. -/
+
+/-- **closed_form_eq_staircase**: for `0 < |lat| < 87`, `2 ≤ n ≤ 59`: the closed form is `n`
+    exactly on `θ (n+1) < |lat| ≤ θ n`.
+    (The interval is closed at `θ n`: AT a transition latitude the exact closed form still gives
+    `n`, while DO-260B's table and `nlStair` give `n − 1` there — the half-open convention
+    `θ (n+1) ≤ |lat| < θ n` is therefore NOT what the formula computes at the transition points
+    themselves; they are not CPR grid latitudes, `grid_avoids_transitions`.) -/
+theorem closed_form_eq_staircase (lat : ℝ) (n : ℕ) (hn : 2 ≤ n) (hn' : n ≤ 59)
+    (h0 : 0 < |lat|) (h87 : |lat| < 87) :
+    ⌊2 * Real.pi / Real.arccos (1 - (1 - Real.cos (Real.pi / (2 * 15))) /
+        Real.cos (Real.pi / 180 * |lat|) ^ 2)⌋ = (n : ℤ) ↔ θ (n + 1) < |lat| ∧ |lat| ≤ θ n :=
+  NL.closed_form_eq_staircase lat n hn hn' h0 h87
+
+/-- the closed form takes a value in `2 … 59` everywhere on `0 < |lat| < 87` -/
+theorem nlClosed_range (lat : ℝ) (h0 : 0 < |lat|) (h87 : |lat| < 87) :
+    ∃ n : ℕ, 2 ≤ n ∧ n ≤ 59 ∧ NL.nlClosed lat = (n : ℤ) := NL.nlClosed_range lat h0 h87
+
+/-- closed form (ℝ) = table staircase (ℚ) whenever `|y|` and `x` lie on the same side of every
+    enclosure -/
+theorem nlClosed_eq_nlStair (y : ℝ) (x : ℚ) (hy0 : 0 < |y|) (hy87 : |y| < 87) (hx87 : x ≤ 87)
+    (hsame : ∀ r ∈ Spec.nlTable, 3 ≤ r.1 →
+      (|y| * 1000000000000 < (r.2.1 : ℝ) ∧ x * 1000000000000 < (r.2.1 : ℚ)) ∨
+      ((r.2.2 : ℝ) < |y| * 1000000000000 ∧ (r.2.2 : ℚ) < x * 1000000000000)) :
+    NL.nlClosed y = (nlStair x : ℤ) := NL.nlClosed_eq_nlStair y x hy0 hy87 hx87 hsame
+
+open NL in
+/-- on every CPR grid latitude other than 0 and beyond ±87° the exact closed form is `cprNL` -/
+theorem nlClosed_on_grid (g : LatGrid) (m : ℤ) (h0 : gridLat g m ≠ 0) (h87 : |gridLat g m| < 87) :
+    nlClosed ((gridLat g m : ℚ) : ℝ) = (cprNL (gridLat g m) : ℤ) := by
+  rw [cprNL_eq_stair_abs]; exact NL.nlClosed_on_grid g m h0 h87
+
+open NL in
+/-- … and for every real `y` within 8.069e-9° of a grid latitude (`0 < |y| < 87`) -/
+theorem nlClosed_near_grid (g : LatGrid) (m : ℤ) (y : ℝ) (hy0 : 0 < |y|) (hy87 : |y| < 87)
+    (hy : |y - ((gridLat g m : ℚ) : ℝ)| ≤ 8069 / 10 ^ 12) :
+    nlClosed y = (cprNL (gridLat g m) : ℤ) := by
+  rw [cprNL_eq_stair_abs]; exact NL.nlClosed_near_grid g m y hy0 hy87 hy
+
+/-- non-vacuity: the grid latitude closest to a transition (surface odd, number 3913562,
+    45.5462672346…°) — the closed form over ℝ is 41 there, as is `cprNL` -/
+example : NL.nlClosed ((NL.gridLat .surfOdd 3913562 : ℚ) : ℝ) = 41 := by
+  rw [nlClosed_on_grid .surfOdd 3913562 (by norm_num [NL.gridLat, NL.LatGrid.dLat])
+    (by norm_num [NL.gridLat, NL.LatGrid.dLat, abs_of_pos])]
+  have : cprNL (NL.gridLat .surfOdd 3913562) = 41 := by decide +kernel
+  rw [this]; rfl
 
 end PyModeS.C06
